@@ -417,6 +417,9 @@ add("C19", "fixed", "variable-path-not-reported:in-partial", "a partial first re
     [{"kind": "matrix", "main": "{% include 'a' %}", "partials": {"a": "{% if d %}{% assign d = false %}{% include 'a', depth: 1 %}{% endif %}{% include 'b' %}", "b": "{{ q | upcase }}{% echo 1 %}"},
       "datas": [V.enc({"d": True, "q": "hi"})], "async": False, "async_analysis": False}], "a900d69")
 
+add("C10", "fixed", "ws:plain:if", "with shorthand template comments enabled, an unclosed '{#-' (literal text) still right-trimmed the text before it: 'a  {#- b' rendered 'a{#- b'",
+    [{"segs": ["a  {#- b"], "tc": True}, {"segs": [" p ", {"k": "out", "f": [0, 0], "lit": "L"}, "a \n{#-"], "tc": True}], "a0a0418")
+
 if __name__ == "__main__":
     # further entries are appended by tools/mkfindings.py from triaged replay files and kept in findings_extra.json
     extra_path = os.path.join(VERIF, "tools", "findings_extra.json")
